@@ -1,9 +1,9 @@
 SPECIFICATION GSpec
-INVARIANTS Emit GenNotBlocked ThrottleOk
+INVARIANTS Emit GenNotBlocked ThrottleOk DryNoChange
 CHECK_DEADLOCK FALSE
 CONSTANTS
- Gated = {"tag.delete", "m:delete", "image.copy", "image.copy+dt", "image.copy+fr"}
- RelOnErr = {"image.config", "m:config", "image.importTar", "image.exportTar", "image.copy", "image.copy+dt", "image.copy+fr"}
+ Ungated = {}
+ LeakOnErr = {}
  StubReads = {}
  NS = 3
  MaxLen = 4
